@@ -1,6 +1,6 @@
 SPECIFICATION TSpec
 CONSTANTS Sizes = {}
-          Stats = FALSE
+          Stats = TRUE
 INVARIANTS BoundOK NothingLost NoEmptyWrite
 POSTCONDITION Accepted
 CHECK_DEADLOCK FALSE
